@@ -421,6 +421,17 @@ class C04Best(Monitor):
             from ..gen import engine_mix
 
             self.nt((engine_mix(ctx.desc), ctx.maximize))
+        # where in the run was the best-ever value observed?  (a generation that is evaluated but not recorded
+        # only matters if it holds the new best, so the workload must often improve at the very end)
+        if ctx.log and tree is not None and ctx.step > 0:
+            ys = [e[2] for e in ctx.log]
+            b = max(ys) if ctx.maximize else min(ys)
+            first = ys.index(b)
+            if first >= ctx.step_start_idx:
+                self.cov("best_ever_first_observed_in_final_metaepoch")
+                ft = ctx.first_true
+                if ft is not None and ft[2] == "deme" and first >= ft[1] - 64:
+                    self.cov("best_ever_first_observed_around_first_true")
 
     def on_run_end(self, tree):
         self._final(tree)
